@@ -124,8 +124,46 @@ def eval_expr(e: ast.expr, env: dict[str, Any], oracle: Oracle | None = None) ->
         recv = eval_expr(e.func.value, env, oracle)
         if isinstance(recv, (str, bytes)):
             return getattr(recv, e.func.attr)()
+    if isinstance(e, (ast.ListComp, ast.SetComp, ast.GeneratorExp, ast.DictComp)) and len(e.generators) == 1 and not e.generators[0].is_async:
+        gen = e.generators[0]
+        src = eval_expr(gen.iter, env, oracle)
+        if isinstance(src, dict):
+            src = list(src)
+        if not isinstance(src, (list, tuple, set, frozenset, str, bytes, range)) and not hasattr(src, "__iter__"):
+            raise TypeRaised("TypeError")
+        out: list[Any] = []
+        for item in src:
+            e2 = dict(env)
+            if isinstance(gen.target, ast.Name):
+                e2[gen.target.id] = item
+            elif isinstance(gen.target, ast.Tuple) and all(isinstance(t, ast.Name) for t in gen.target.elts) and isinstance(item, tuple) and len(item) == len(gen.target.elts):
+                for t, v_ in zip(gen.target.elts, item):
+                    e2[t.id] = v_
+            else:
+                raise AnalysisError(f"comprehension target outside the language: {ast.unparse(e)}")
+            if all(eval_expr(c, e2, oracle) for c in gen.ifs):
+                out.append((eval_expr(e.key, e2, oracle), eval_expr(e.value, e2, oracle)) if isinstance(e, ast.DictComp) else eval_expr(e.elt, e2, oracle))
+        if isinstance(e, ast.DictComp):
+            return dict(out)
+        return set(out) if isinstance(e, ast.SetComp) else out
+    if isinstance(e, ast.Call) and isinstance(e.func, ast.Attribute) and e.func.attr in ("items", "keys", "values") and not e.args and not e.keywords:
+        recv = eval_expr(e.func.value, env, oracle)
+        if isinstance(recv, dict):
+            return list(getattr(recv, e.func.attr)())
+    if isinstance(e, ast.Call) and isinstance(e.func, ast.Name) and e.func.id == "isinstance" and len(e.args) == 2 and not e.keywords:
+        types = _builtin_types(e.args[1])
+        if types is not None:
+            return isinstance(eval_expr(e.args[0], env, oracle), types)
     if isinstance(e, ast.Call):
         f = ast.unparse(e.func)
+        if f == "len" and len(e.args) == 1 and not e.keywords:
+            v0 = None
+            try:
+                v0 = eval_expr(e.args[0], env, oracle)
+            except AnalysisError:
+                v0 = AnalysisError
+            if v0 is not AnalysisError and (v0 is None or isinstance(v0, (int, float, bool))):
+                raise TypeRaised("TypeError")
         if f == "len" and len(e.args) == 1 and not e.keywords:
             try:
                 v = eval_expr(e.args[0], env, oracle)
@@ -143,6 +181,28 @@ def eval_expr(e: ast.expr, env: dict[str, Any], oracle: Oracle | None = None) ->
     raise AnalysisError(f"expression outside the finite-domain language: {ast.unparse(e)}")
 
 
+class TypeRaised(Raised):
+    """The interpreted expression raises a TypeError for the representative value (e.g. len(5))."""
+    def __init__(self, name: str = "TypeError") -> None:
+        super().__init__(ast.Raise(exc=ast.Name(id=name, ctx=ast.Load()), cause=None))
+
+
+_BUILTIN_TYPES = {"int": int, "str": str, "bytes": bytes, "bytearray": bytearray, "list": list, "tuple": tuple, "dict": dict, "set": set, "bool": bool, "float": float}
+
+
+def _builtin_types(node: ast.expr):
+    """bytes | bytearray, (bytes, bytearray), list ... -> tuple of types; None if another name occurs."""
+    if isinstance(node, ast.Name):
+        return (_BUILTIN_TYPES[node.id],) if node.id in _BUILTIN_TYPES else None
+    if isinstance(node, ast.BinOp) and isinstance(node.op, ast.BitOr):
+        a, b = _builtin_types(node.left), _builtin_types(node.right)
+        return a + b if a is not None and b is not None else None
+    if isinstance(node, ast.Tuple):
+        parts = [_builtin_types(x) for x in node.elts]
+        return tuple(t for p in parts for t in p) if all(p is not None for p in parts) else None
+    return None
+
+
 def exec_body(stmts: list[ast.stmt], env: dict[str, Any], oracle: Oracle | None = None) -> None:
     for st in stmts:
         if isinstance(st, ast.Expr) and isinstance(st.value, ast.Constant):
@@ -153,6 +213,11 @@ def exec_body(stmts: list[ast.stmt], env: dict[str, Any], oracle: Oracle | None 
             tg = st.targets[0] if isinstance(st, ast.Assign) else st.target
             if st.value is None:
                 continue
+            if isinstance(tg, ast.Subscript) and not isinstance(tg.slice, ast.Slice):
+                base = eval_expr(tg.value, env, oracle)
+                if isinstance(base, dict):
+                    base[eval_expr(tg.slice, env, oracle)] = eval_expr(st.value, env, oracle)
+                    continue
             if not isinstance(tg, ast.Name):
                 raise AnalysisError(f"assignment outside the language: {ast.unparse(st)}")
             env[tg.id] = eval_expr(st.value, env, oracle)
